@@ -961,7 +961,10 @@ class C10(Driver):
         stats.update(benign)
         stats["cases_executed"] = executed
         stats["cases_skipped"] = len(cases) - executed
-        events = [Event(i, 0, 0, "case", "%d %s" % (i, fate.get(i, "skipped"))) for i in range(len(cases) + 1) if i in fate or i < len(cases)]
+        # (whether a long-running case was cut by the wall clock depends on how busy the machine is: that is counted
+        # in the statistics, not written into the history that the determinism gate compares)
+        events = [Event(i, 0, 0, "case", "%d %s" % (i, fate.get(i, "skipped").replace(" ended:timeout", "").strip() or "loaded"))
+                  for i in range(len(cases) + 1) if i in fate or i < len(cases)]
         if first_bad is not None:
             primary = Result(first_bad.how, first_bad.code, wall, events, "\n".join(logs)[:200000])
         else:
